@@ -88,6 +88,10 @@ def generate(tier, rng):
         lox, hix = lims(sx, nx); loy, hiy = lims(sy, ny)
         a = structured(rng, lox, hix, nx); b = structured(rng, loy, hiy, ny)
         yield 'AR %s optimal raw %s %s %s %s %s %s %s' % (op, rng.choice(['operator', 'function']), fm(x), fm(y), rng.choice(ROUNDS), rng.choice(OVFS), L([a]), L([b]))
+        if rng.random() < 0.5:
+            # the four extreme-code corners (they bound every other pair) and one more pair, as arrays
+            yield 'AR %s optimal raw %s %s %s %s %s %s %s' % (op, rng.choice(['operator', 'function']), fm(x), fm(y), rng.choice(ROUNDS), rng.choice(OVFS),
+                                                              L([lox, lox, hix, hix, a]), L([loy, hiy, loy, hiy, b]))
     n_bi = 3000 if tier == 'quick' else 80000
     for _ in range(n_bi):
         s = rng.random() < 0.5
